@@ -5,6 +5,7 @@
 -/
 import ASV.Proofs.RegionsSort
 import ASV.Proofs.SweepRegions
+import ASV.Proofs.LocConnectRingIn
 namespace ASV.Regions
 open ASV ASV.SweepG
 
@@ -73,12 +74,67 @@ theorem connect_hull {len : Int} (y : Feat) (hy : LineArea len y.loc) (lo hi : I
     · exact hy.parts
     · simp [Loc.parts, bridgesOrigin]
 
+/-- two overlapping single-part spans are never "shorter over the origin" -/
+theorem not_wrapping_overlap (a b : Part) (L : Int) (hL : 0 ≤ L) (h1 : a.lo < b.hi) (h2 : b.lo < a.hi) :
+    isWrappingShorter [.simple a, .simple b] L = false := by
+  have hdiv : 0 ≤ L / 2 := Int.ediv_nonneg hL (by omega)
+  have hsort : sortLocs [Loc.simple a, Loc.simple b] = [Loc.simple a, Loc.simple b] ∨
+      sortLocs [Loc.simple a, Loc.simple b] = [Loc.simple b, Loc.simple a] := by
+    simp only [sortLocs, List.foldr, insertLocBy]
+    split
+    · exact Or.inl rfl
+    · exact Or.inr rfl
+  have hnb : [Loc.simple a, Loc.simple b].any bridgesOrigin = false := by simp [bridgesOrigin]
+  unfold isWrappingShorter
+  rw [hnb]
+  simp only [Bool.false_eq_true, if_false]
+  rcases hsort with h | h <;> rw [h] <;> simp [Loc.start, Loc.end] <;> omega
+
+/-- on a circular record, connecting two overlapping single-part spans gives their line hull as well -/
+theorem connect_ring_overlap (a b : Part) (L : Int) (hL : 0 < L)
+    (ha : 0 ≤ a.lo ∧ a.lo < a.hi ∧ a.hi ≤ L) (hb : 0 ≤ b.lo ∧ b.lo < b.hi ∧ b.hi ≤ L)
+    (h1 : a.lo < b.hi) (h2 : b.lo < a.hi) :
+    connect [.simple a, .simple b] (some L) = connect [.simple a, .simple b] none := by
+  have hin : ∀ l ∈ [Loc.simple a, Loc.simple b], RingIn L l := by
+    intro l hl
+    simp only [List.mem_cons, List.mem_singleton, List.not_mem_nil, or_false] at hl
+    rcases hl with rfl | rfl
+    · exact ⟨by simp [Loc.parts], by intro p hp; simp [Loc.parts] at hp; subst hp; exact ha,
+        fun h => by simp [bridgesOrigin] at h⟩
+    · exact ⟨by simp [Loc.parts], by intro p hp; simp [Loc.parts] at hp; subst hp; exact hb,
+        fun h => by simp [bridgesOrigin] at h⟩
+  rw [connect_ring_closed _ L (by simp) hL hin, connect_line _ (by simp) (by
+    intro l hl
+    simp only [List.mem_cons, List.mem_singleton, List.not_mem_nil, or_false] at hl
+    rcases hl with rfl | rfl <;> simp [Loc.parts, bridgesOrigin])]
+  have ht : ∀ p : Part, toR (.simple p) = .one p := by
+    intro p; simp [toR, bridgesOrigin, Loc.start, Loc.end, Loc.strand]
+  simp only [List.map_cons, List.map_nil, ht, connR, List.any_cons, List.any_nil, RLoc.isTwo, Bool.or_false,
+    Bool.false_eq_true, if_false, connA, RLoc.toLoc, not_wrapping_overlap a b L (by omega) h1 h2, hullOf]
+
+/-- the wrap point handed to `connect_locations`: none (linear record) or the record length -/
+def WrapOf (len : Int) (w : Option Int) : Prop := w = none ∨ (w = some len ∧ 0 < len)
+
+/-- the hull step of the sweep, on a linear record or on a circular one (areas not spanning the origin) -/
+theorem connect_hull_w {len : Int} {w : Option Int} (hw : WrapOf len w) (y : Feat) (hy : LineArea len y.loc)
+    (lo hi : Int) (s : Strand) (h0 : 0 ≤ lo) (h1 : lo < hi) (hL : hi ≤ len) (h2 : lo ≤ fLo y) (hov : fLo y < hi) :
+    connect [y.loc, .simple ⟨lo, hi, s⟩] w =
+      .ok (.simple ⟨lo, max hi (fHi y), if s == y.loc.strand then y.loc.strand else .none⟩) := by
+  rcases hw with rfl | ⟨rfl, hpos⟩
+  · exact connect_hull y hy lo hi s h2
+  · obtain ⟨p, hp, hp0, hp1, hp2⟩ := hy
+    have := connect_hull y ⟨p, hp, hp0, hp1, hp2⟩ lo hi s h2
+    rw [hp] at this ⊢
+    rw [connect_ring_overlap p ⟨lo, hi, s⟩ len hpos ⟨hp0, hp1, hp2⟩ ⟨h0, h1, hL⟩ (by
+      simp only [fLo, hp, Loc.start] at hov; exact hov) (by simp only [fLo, hp, Loc.start] at h2; simp only; omega)]
+    exact this
+
 /-- the model's sweep on a linear record is the abstract sweep -/
-theorem sweepAreas_line {len : Int} (cur : Grp Feat) (ys : List Feat)
-    (hne : cur.members ≠ []) (hcur : cur.lo < cur.hi)
+theorem sweepAreas_line {len : Int} {w : Option Int} (hw : WrapOf len w) (cur : Grp Feat) (ys : List Feat)
+    (hne : cur.members ≠ []) (hcur : cur.lo < cur.hi) (hcb : 0 ≤ cur.lo ∧ cur.hi ≤ len)
     (hys : ∀ y ∈ ys, LineArea len y.loc) (hs : ∀ y ∈ ys, cur.lo ≤ fLo y)
     (hsorted : ys.Pairwise (fun a b => fLo a ≤ fLo b)) :
-    sweepAreas none (secOf cur).1 cur.members ys = .ok ((go fLo fHi cur ys).map secOf) := by
+    sweepAreas w (secOf cur).1 cur.members ys = .ok ((go fLo fHi cur ys).map secOf) := by
   induction ys generalizing cur with
   | nil => simp [sweepAreas, go, secOf, pure, Except.pure]
   | cons y ys ih =>
@@ -89,15 +145,17 @@ theorem sweepAreas_line {len : Int} (cur : Grp Feat) (ys : List Feat)
     simp only [hov]
     by_cases hlt : fLo y < cur.hi
     · simp only [hlt, decide_true, Bool.not_true, Bool.false_eq_true, if_false, if_true]
-      rw [connect_hull y hy _ _ _ (hs y (by simp))]
+      rw [connect_hull_w hw y hy _ _ _ hcb.1 hcur hcb.2 (hs y (by simp)) hlt]
       simp only [bind, Except.bind]
+      have hyb := hy.bounds
       have := ih ⟨cur.lo, max cur.hi (fHi y), cur.members ++ [y]⟩ (by simp) (by simp only; omega)
+        (by simp only [fHi]; omega)
         (fun z hz => hys z (by simp [hz])) (fun z hz => hs z (by simp [hz])) hsorted'.2
       simp only [secOf, hullStrand_snoc _ _ hne] at this
       exact this
     · simp only [hlt, decide_false, Bool.not_false, if_true, if_false]
       have hb := hy.bounds
-      have := ih ⟨fLo y, fHi y, [y]⟩ (by simp) (by simp only [fLo, fHi]; omega)
+      have := ih ⟨fLo y, fHi y, [y]⟩ (by simp) (by simp only [fLo, fHi]; omega) (by simp only [fLo, fHi]; omega)
         (fun z hz => hys z (by simp [hz])) (fun z hz => hsorted'.1 z hz) hsorted'.2
       have hloc : (secOf ⟨fLo y, fHi y, [y]⟩).1 = y.loc := by
         obtain ⟨p, hp, _⟩ := hy
@@ -113,8 +171,8 @@ theorem no_overlap_sep (g g' : Grp Feat) (h1 : g.lo < g.hi) (h2 : g'.lo < g'.hi)
   omega
 
 theorem mergeFirstLast_line (gs : List (Grp Feat)) (hsep : gs.Pairwise (fun g g' => g.hi ≤ g'.lo))
-    (hwf : ∀ g ∈ gs, g.lo < g.hi) (n : Nat) :
-    mergeFirstLast none n (gs.map secOf) = .ok (gs.map secOf) := by
+    (hwf : ∀ g ∈ gs, g.lo < g.hi) (w : Option Int) (n : Nat) :
+    mergeFirstLast w n (gs.map secOf) = .ok (gs.map secOf) := by
   cases n with
   | zero => rfl
   | succ n =>
